@@ -49,6 +49,9 @@ Judge(ln) ==
                    ELSE (IF ln.ok THEN {"C11_NothingElse"} ELSE {}))
     [] ln.ev = "n2s" ->
          (IF ln.pitch = Pitch(ln.n) /\ ln.oct = Octave(ln.n) THEN {} ELSE {"C11_NumberToName"})
+    \* the name as displayed (blanks removed) is a name of exactly that number - also when several goroutines format at once
+    [] ln.ev = "disp" ->
+         (IF ln.s \in Valid /\ Value(ln.s) = ln.n THEN {} ELSE {"C11_NumberToName"})
     [] ln.ev = "crash" -> {"X_Crash"}
     [] OTHER -> {}
 
